@@ -87,7 +87,7 @@ func shrinkCandidates(sc *Scenario) []*Scenario {
 	target := sc.MetaString("target")
 	for i := range sc.Files {
 		name := sc.Files[i].Name
-		if name == target {
+		if name == target || sc.MetaBool("via_symlink") {
 			continue
 		}
 		add(func(c *Scenario) bool {
